@@ -18,7 +18,7 @@ EXPLANATION = (
 ASSUMPTIONS = ["at most one task joins a given pika::thread at a time (API contract)",
                "thread::start_thread is only called from constructors (id_ written before the handle is shared)"]
 THOROUGH_CONFIGS = [["-UNDEBUG", "-DPIKA_DEBUG"]]
-FLOORS = {"C13.R1": 4, "C13.R2": 3, "C13.R3": 6, "C13.R4": 7, "C13.R5": 2, "C13.R6": 4, "C13.R7": 5, "C13.R8": 4}
+FLOORS = {"C13.R1": 4, "C13.R2": 3, "C13.R3": 6, "C13.R4": 7, "C13.R5": 2, "C13.R6": 4, "C13.R7": 5, "C13.R8": 4, "C13.R9": 2}
 
 TD = "pika::threads::detail::thread_data"
 
@@ -312,6 +312,36 @@ def run(rep, tier):
                 "delivered at an interruption point / is delivered when it must not be" % wrong[0])
     else:
         rep.ok("C13.R5", ip, "interruption_point: throw / true / false exactly as (enabled && requested && throw_on_interrupt) / (enabled && requested) / otherwise (8 valuations)")
+    # ---- R9: the scoped switches
+    rep.rule("C13.R9", "K4: this_thread::disable_interruption switches interruption off and its destructor puts back what it found; restore_interruption(d) re-enables "
+             "interruption - for its own lifetime - exactly when it was enabled before d, so that on leaving it interruption is off again while d is alive: an "
+             "interruption request is never delivered inside a disable_interruption scope")
+    SC = facts(rep, lib("threading", "src/thread.cpp"), [r"^pika::this_thread::(disable_interruption|restore_interruption)::"])
+    n9 = 0
+    for cls, val in (("disable_interruption", "false"), ("restore_interruption", "true")):
+        cts = [f for f in SC.fns if f.kind == "ctor" and f.qname.startswith("pika::this_thread::%s::" % cls) and f.parent == -1]
+        if len(cts) != 1:
+            raise AnalysisBroken("this_thread::%s: constructor not found" % cls)
+        fn = cts[0]
+        ffc = FactFlow(fn)
+        sets = [(b, i, e) for b, i, e in fn.all_events() if e.get("k") == "call" and callee_short(e) == "set_thread_interruption_enabled"]
+        if not sets:
+            rep.bad("C13.R9", fn, fn.loc, "switch-missing:" + cls, "%s does not switch the interruption state" % cls)
+            continue
+        for b, i, e in sets:
+            n9 += 1
+            fb = ffc.before.get((b, i)) or frozenset()
+            was = [t for a, t in fb if "interruption_was_enabled_" in a or "interruption_enabled()" in a]
+            v = T(strip(e["args"][1])) if len(e.get("args") or []) > 1 else "?"
+            if v == val and True in was and False not in was:
+                rep.ok("C13.R9", fn, "%s switches interruption %s exactly when it was enabled before" % (cls, "off" if val == "false" else "on again"))
+            else:
+                rep.bad("C13.R9", fn, loc_of(e), "scoped-switch:" + cls, "%s calls set_thread_interruption_enabled(.., %s) on a path where interruption was %s before (expected: "
+                        "set %s, only when it was enabled): %s" % (cls, v, "enabled" if True in was else ("not enabled" if False in was else "not tested"), val,
+                        "interruption stays off inside restore_interruption and is switched ON when it ends, inside the enclosing disable_interruption scope - a request "
+                        "is then delivered although interruption is disabled" if cls == "restore_interruption" else "interruption is not disabled"))
+    if n9 < 2:
+        raise AnalysisBroken("C13.R9: scoped switches not examined")
     H = facts(rep, lib("threading_base", "src/thread_data.cpp"), [r"^pika::threads::detail::thread_data::interrupt$"])
     it = [f for f in H.find(r"thread_data::interrupt$") if not f.pattern]
     if not it:
